@@ -133,7 +133,7 @@ func runCase(t *testing.T, run *core.Run, name string, idx int, rng *rand.Rand) 
 	if e != nil {
 		t.Fatal(e)
 	}
-	blocks := core.Pick(45, 150)
+	blocks := core.Pick(45, 100)
 	var history []string
 	for b := 0; b < blocks; b++ {
 		h := nd.Height()
@@ -265,7 +265,7 @@ func TestCheck(t *testing.T) {
 	defer run.Finish()
 	run.MinDistinct = 3
 	run.Assume("burn of the undistributed reward remainder is bounded by the reward pools rather than recomputed exactly; plugin-written balances and the faucet are not configured; DEX/escrow flows belong to C20")
-	n := core.Pick(8, 300)
+	n := core.Pick(8, 200)
 	run.Sharded(n, func(i int) {
 		name := fmt.Sprintf("chain/%d", i)
 		if run.Want(name) {
